@@ -439,7 +439,13 @@ func runTrial(i int) {
 func runMetaTrial(t trial) {
 	a, b := metaUse(t.A), metaUse(t.B)
 	var ra, rb string
-	r := mcrt.Run(nil, func() {
+	// the schedule to follow (a prefix of choices; what comes after takes the default): this process is fresh, and only
+	// the very first execution in it meets the package-level schemas unused - so every schedule gets a process of its own
+	var prefix []mcrt.Choice
+	if p := os.Getenv("VERIF_C13_PREFIX"); p != "" {
+		_ = json.Unmarshal([]byte(p), &prefix)
+	}
+	r := mcrt.Run(prefix, func() {
 		var wg mcrt.WaitGroup
 		wg.Add(2)
 		mcrt.GoNamed("a", func() { defer wg.Done(); ra = a() })
@@ -460,16 +466,25 @@ func runMetaTrial(t trial) {
 			diff += fmt.Sprintf("%s: concurrently %s, alone %s; ", t.B, clip(rb), clip(alone))
 		}
 	}
-	out, _ := json.Marshal(map[string]any{"status": r.Status.String(), "races": sigs, "panic": r.PanicValue, "diff": diff, "a": clip(ra), "b": clip(rb)})
+	out, _ := json.Marshal(map[string]any{"status": r.Status.String(), "races": sigs, "panic": r.PanicValue, "diff": diff, "a": clip(ra), "b": clip(rb), "choices": r.Choices, "infra": r.Infra})
 	fmt.Println(string(out))
 }
 
 func pre(tier string, rep *lib.Report) (int, map[string]any) {
 	self, _ := os.Executable()
 	n := 0
-	for i, t := range trials() {
+	type job struct {
+		i      int
+		prefix string
+	}
+	var jobs []job
+	for i := range trials() {
+		jobs = append(jobs, job{i, ""})
+	}
+	for ji := 0; ji < len(jobs); ji++ {
+		i, t := jobs[ji].i, trials()[jobs[ji].i]
 		cmd := exec.Command(self)
-		cmd.Env = append(os.Environ(), fmt.Sprintf("VERIF_C13_TRIAL=%d", i), "GOMAXPROCS=1")
+		cmd.Env = append(os.Environ(), fmt.Sprintf("VERIF_C13_TRIAL=%d", i), "GOMAXPROCS=1", "VERIF_C13_PREFIX="+jobs[ji].prefix)
 		out, err := cmd.Output()
 		n++
 		if err != nil {
@@ -477,14 +492,30 @@ func pre(tier string, rep *lib.Report) (int, map[string]any) {
 			continue
 		}
 		var res struct {
-			Status string
-			Races  []string
-			Panic  string
-			Diff   string
+			Status  string
+			Races   []string
+			Panic   string
+			Diff    string
+			Infra   string
+			Choices []mcrt.Choice
 		}
 		if json.Unmarshal(out, &res) != nil {
 			rep.InfraError("bad trial output: " + string(out))
 			continue
+		}
+		if t.Global == "meta" && jobs[ji].prefix == "" && res.Status == "complete" {
+			// every schedule that differs from the default one in a single choice (one preemption or one other thread at a
+			// blocking point), each in a fresh process
+			for k, c := range res.Choices {
+				for alt := 1; alt < c.N; alt++ {
+					p := append(append([]mcrt.Choice{}, res.Choices[:k]...), mcrt.Choice{I: alt, N: c.N})
+					b, _ := json.Marshal(p)
+					jobs = append(jobs, job{i, string(b)})
+				}
+			}
+		}
+		if res.Status == "infra" && jobs[ji].prefix != "" {
+			continue // the prefix did not apply (the execution took another course before it): not a schedule of this trial
 		}
 		if res.Diff != "" {
 			rep.Violate("first concurrent use of the package-level meta-schema returns something else than in isolation", fmt.Sprintf("%v: %s", t, res.Diff), map[string]any{"trial": i})
@@ -501,7 +532,7 @@ func pre(tier string, rep *lib.Report) (int, map[string]any) {
 		}
 		for _, r := range res.Races {
 			parts := strings.SplitN(r, "\t", 2)
-			rep.Violate("data race: "+parts[0], fmt.Sprintf("first concurrent use of the package-level %s (%s || %s) in a fresh process\n%s", t.Global, t.A, t.B, parts[1]), map[string]any{"trial": i})
+			rep.Violate("data race: "+parts[0], fmt.Sprintf("first concurrent use of the package-level %s (%s || %s) in a fresh process, schedule %s\n%s", t.Global, t.A, t.B, jobs[ji].prefix, parts[1]), map[string]any{"trial": i, "prefix": jobs[ji].prefix})
 		}
 	}
 	return n, map[string]any{"package_level_trials_in_fresh_processes": n}
